@@ -36,7 +36,10 @@ CONSTANTS Accts,      \* account ids, e.g. {1, 2}
           Bump,       \* PriceBump (percent)
           MaxOps,     \* bound on the number of operations
           GenMode,    \* "none" | "leaf"
-          Mode        \* "split" (Add and RunReorg separate: design run) | "sync" (glued: generation)
+          Mode,       \* "split" (Add and RunReorg separate: design run) | "sync" (glued: generation)
+          Alpha,      \* "full" | "small": the alphabet of the synchronous actions (bounded-exhaustive generation uses "small")
+          Slim,       \* TRUE: only account 1 uses the whole transaction alphabet (smaller design runs)
+          Strict      \* TRUE: the invariants are not weakened by the known-finding classes
 
 VARIABLES s,          \* the pool: [pend, que, all, loc, pn, sn, sb, gp]
           work,       \* reorg work requested and not yet run: [dirty: set of accounts, reset: <<>> or <<newsn, newsb, reinject>>]
@@ -47,18 +50,20 @@ VARIABLES s,          \* the pool: [pend, que, all, loc, pn, sn, sb, gp]
 vars == <<s, work, last, dem, nops, hist>>
 
 Nonces == 0..MaxNonce
-Tx == [a : Accts, n : Nonces, p : Prices, v : Vals]
+TxAll == [a : Accts, n : Nonces, p : Prices, v : Vals]
+MinP == CHOOSE p \in Prices : \A q \in Prices : p <= q
+MinV == CHOOSE v \in Vals : \A u \in Vals : v <= u
+Tx == IF Slim THEN { t \in TxAll : t.a = 1 \/ (t.p = MinP /\ t.v = MinV) } ELSE TxAll
 Cost(t) == t.p + t.v
 NoWork == [dirty |-> {}, reset |-> <<>>]
 
 Init == /\ s = [pend |-> [a \in Accts |-> {}], que |-> [a \in Accts |-> {}], all |-> {}, loc |-> {},
                 pn |-> [a \in Accts |-> -1], sn |-> [a \in Accts |-> 0], sb |-> [a \in Accts |-> 4], gp |-> 1]
-        /\ work = NoWork /\ last = <<>> /\ nops = 0 /\ dem = [acc |-> {}, glob |-> FALSE]
-        /\ hist = IF GenMode = "none" THEN <<>>
-                  ELSE <<[op |-> "Init", accts |-> Accts, as |-> AS, gs |-> GS, aq |-> AQ, gq |-> GQ, bump |-> Bump]>>
+        /\ work = NoWork /\ last = <<>> /\ nops = 0 /\ dem = [acc |-> {}, glob |-> FALSE, gap |-> {}]
+        /\ hist = <<[op |-> "Init", accts |-> Accts, as |-> AS, gs |-> GS, aq |-> AQ, gq |-> GQ, bump |-> Bump]>>
 
 Tick(rec) == /\ nops < MaxOps /\ nops' = nops + 1
-             /\ hist' = IF GenMode = "none" THEN hist ELSE Append(hist, rec)
+             /\ hist' = Append(hist, rec)
 
 \* ---------------------------------------------------------------- helpers
 Max(S) == CHOOSE x \in S : \A y \in S : y <= x
@@ -252,8 +257,16 @@ Quiet == work = NoWork
 \* per-account cap, and re-pricing is not followed by a reorg step at all: an overflow of a queue limit that starts with a
 \* demotion is the known-finding class "demoted"; it is remembered while the overflow lasts.
 DemotedIn(st, st2) == { a \in Accts : st.pend[a] \cap st2.que[a] # {} }
-NewDem(st, st2) == [acc  |-> { a \in Accts : Cardinality(st2.que[a]) > AQ /\ (a \in dem.acc \/ a \in DemotedIn(st, st2)) },
-                    glob |-> QueCount(st2) > GQ /\ (dem.glob \/ DemotedIn(st, st2) # {})]
+\* A reset re-injects the transactions of the abandoned block; one of them may be refused (price floor raised since, pool
+\* full, ...) while later nonces of the account are still in its pending list: promotion then leaves a hole that
+\* demoteUnexecutables (which only looks for a gap in front) does not see.  Known-finding class "reinject_dropped".
+GapFreeAt(st, a) == /\ NoncesOf(st.pend[a]) = st.sn[a]..(st.sn[a] + Cardinality(st.pend[a]) - 1)
+                    /\ Cardinality(NoncesOf(st.pend[a])) = Cardinality(st.pend[a])
+NewDemR(st, st2, reinj) ==
+   [acc  |-> { a \in Accts : Cardinality(st2.que[a]) > AQ /\ (a \in dem.acc \/ a \in DemotedIn(st, st2)) },
+    glob |-> QueCount(st2) > GQ /\ (dem.glob \/ DemotedIn(st, st2) # {}),
+    gap  |-> { a \in Accts : ~GapFreeAt(st2, a) /\ (a \in dem.gap \/ \E t \in reinj : t.a = a /\ t \notin st2.all) }]
+NewDem(st, st2) == NewDemR(st, st2, {})
 
 \* one submission (split mode): the transaction is added under the lock, promotion is requested
 Add(t, local) ==
@@ -266,7 +279,10 @@ Add(t, local) ==
    /\ UNCHANGED last
 
 \* the head moved (split mode): a reset is requested; the pool's own state changes only when the reorg step runs
-Mined(a, n) == { t \in s.pend[a] : t.n >= s.sn[a] /\ t.n < n }
+\* the block that advances the nonce of a to n: the pool's pending transactions where it has them (what a miner takes),
+\* transactions the pool never saw (cheapest kind) for the other nonces
+Mined(a, n) == { IF At(s.pend[a], k) # {} THEN CHOOSE t \in At(s.pend[a], k) : TRUE ELSE [a |-> a, n |-> k, p |-> MinP, v |-> MinV]
+                 : k \in s.sn[a]..(n - 1) }
 HeadChange(a, n, b) ==
    /\ Mode = "split" /\ work.reset = <<>>
    /\ (n # s.sn[a] \/ b # s.sb[a])
@@ -286,7 +302,7 @@ RunReorg ==
    /\ Mode = "split" /\ ~Quiet
    /\ Tick([op |-> "RunReorg"])
    /\ s' \in ReorgS(s, work.dirty, work.reset)
-   /\ dem' = NewDem(s, s')
+   /\ dem' = NewDemR(s, s', IF work.reset = <<>> THEN {} ELSE work.reset[4])
    /\ work' = NoWork
    /\ UNCHANGED last
 
@@ -317,7 +333,7 @@ ResetBack ==
    /\ Mode = "sync" /\ last # <<>>
    /\ Tick([op |-> "ResetBack"])
    /\ s' \in ReorgS(s, {}, <<last[1], last[3], last[4], last[2]>>)
-   /\ dem' = NewDem(s, s')
+   /\ dem' = NewDemR(s, s', last[2])
    /\ last' = <<>>
    /\ UNCHANGED work
 
@@ -335,12 +351,30 @@ Evict ==
    /\ dem' = NewDem(s, s')
    /\ UNCHANGED <<work, last>>
 
-Next ==
+\* the small alphabet: expensive transactions only at the lowest price, local submissions only of the plainest kind,
+\* batches of two only from one account at one price
+SmallTx == { t \in Tx : t.v = MinV \/ t.p = MinP }
+Plain(t) == t.p = MinP /\ t.v = MinV
+
+NextSplit ==
    \/ \E t \in Tx, local \in BOOLEAN : Add(t, local)
-   \/ \E a \in Accts, n \in 0..(MaxNonce + 1), b \in Bals : HeadChange(a, n, b) \/ ResetSync(a, n, b)
-   \/ HeadBack \/ RunReorg \/ ResetBack
-   \/ \E t \in Tx, local \in BOOLEAN : AddSync(<<t>>, local)
-   \/ \E t, u \in Tx, local \in BOOLEAN : t # u /\ AddSync(<<t, u>>, local)
+   \/ \E a \in Accts, n \in 0..(MaxNonce + 1), b \in Bals : HeadChange(a, n, b)
+   \/ HeadBack \/ RunReorg
+
+NextSync ==
+   IF Alpha = "small"
+   THEN \/ \E t \in SmallTx, local \in BOOLEAN : (local => Plain(t)) /\ AddSync(<<t>>, local)
+        \/ \E t, u \in SmallTx : t.a = u.a /\ t.n < u.n /\ t.p = u.p /\ t.v = MinV /\ u.v = MinV /\ AddSync(<<t, u>>, FALSE)
+        \/ \E a \in Accts, n \in 0..(MaxNonce + 1), b \in Bals : ResetSync(a, n, b)
+        \/ ResetBack
+   ELSE \/ \E t \in Tx, local \in BOOLEAN : AddSync(<<t>>, local)
+        \/ \E t, u \in Tx, local \in BOOLEAN : ((t.a = u.a /\ t.n < u.n) \/ (t.a < u.a /\ t.v = MinV /\ u.v = MinV)) /\ AddSync(<<t, u>>, local)
+        \/ \E a \in Accts, n \in 0..(MaxNonce + 1), b \in Bals : ResetSync(a, n, b)
+        \/ ResetBack
+
+Next ==
+   \/ (Mode = "split" /\ NextSplit)
+   \/ (Mode = "sync" /\ NextSync)
    \/ \E p \in Prices : SetGasPrice(p)
    \/ Evict
 Spec == Init /\ [][Next]_vars
@@ -352,9 +386,7 @@ AllQue  == UNION { s.que[a] : a \in Accts }
 \* "each pooled transaction is either pending or queued but not both"
 PendingQueueDisjoint == AllPend \cap AllQue = {}
 \* "pending transactions of an account form a gap-free nonce sequence starting at the account's current nonce"
-PendingGapFreeFromStateNonce ==
-   \A a \in Accts : /\ NoncesOf(s.pend[a]) = s.sn[a]..(s.sn[a] + Cardinality(s.pend[a]) - 1)
-                    /\ Cardinality(NoncesOf(s.pend[a])) = Cardinality(s.pend[a])
+PendingGapFreeFromStateNonce == \A a \in Accts : GapFreeAt(s, a) \/ (~Strict /\ a \in dem.gap)
 \* "and are affordable" (each transaction's own cost, see DESIGN section 9)
 PendingAffordable == \A a \in Accts : \A t \in s.pend[a] : Cost(t) <= s.sb[a]
 \* "queued ones lie strictly above"
@@ -362,19 +394,25 @@ QueuedStrictlyAbove ==
    \A a \in Accts : \A t \in s.que[a] : t.n >= s.sn[a] /\ (s.pend[a] # {} => t.n > Max(NoncesOf(s.pend[a])))
 \* "per-account and global limits are respected" -- promised once the reorg step has run; accounts the pool treats as
 \* local are exempt by configuration; AccountSlots is the guaranteed minimum the global limit may not cut into
-LimitsStrict ==
-   Quiet => /\ \A a \in Accts \ s.loc : Cardinality(s.que[a]) <= AQ
-            /\ (PendCount(s) <= GS \/ \A a \in Accts \ s.loc : Cardinality(s.pend[a]) <= AS)
-            /\ (QueCount(s) <= GQ \/ \A a \in Accts \ s.loc : s.que[a] = {})
-\* the same with the known-finding class (queue overflow that began with a demotion) set aside, so that the search goes on
+\* (the known-finding class -- queue overflow that began with a demotion -- is set aside unless Strict, so that the search goes on)
 LimitsRespected ==
-   Quiet => /\ \A a \in Accts \ s.loc : Cardinality(s.que[a]) <= AQ \/ a \in dem.acc
+   Quiet => /\ \A a \in Accts \ s.loc : Cardinality(s.que[a]) <= AQ \/ (~Strict /\ a \in dem.acc)
             /\ (PendCount(s) <= GS \/ \A a \in Accts \ s.loc : Cardinality(s.pend[a]) <= AS)
-            /\ (QueCount(s) <= GQ \/ dem.glob \/ \A a \in Accts \ s.loc : s.que[a] = {})
+            /\ (QueCount(s) <= GQ \/ (~Strict /\ dem.glob) \/ \A a \in Accts \ s.loc : s.que[a] = {})
 \* the lookup table is exactly pending + queued
 AllIsUnion == s.all = AllPend \cup AllQue
 \* design sanity: the virtual nonce is the next nonce after the pending list
 NonceTracksPending == Quiet => \A a \in Accts : s.pend[a] # {} => PN(s, a) = Max(NoncesOf(s.pend[a])) + 1
+
+\* design-level counterexamples are exported as behaviours and replayed on the real pool
+Cex(name) == PrintT("@@J " \o ToJson([kind |-> "CEX", clause |-> name, h |-> hist])) /\ FALSE
+I_Disjoint == PendingQueueDisjoint \/ Cex("PendingQueueDisjoint")
+I_GapFree  == PendingGapFreeFromStateNonce \/ Cex("PendingGapFreeFromStateNonce")
+I_Afford   == PendingAffordable \/ Cex("PendingAffordable")
+I_Above    == QueuedStrictlyAbove \/ Cex("QueuedStrictlyAbove")
+I_Limits   == LimitsRespected \/ Cex("LimitsRespected")
+I_Union    == AllIsUnion \/ Cex("AllIsUnion")
+I_Nonce    == NonceTracksPending \/ Cex("NonceTracksPending")
 
 \* ---------------------------------------------------------------- generation
 Leaf == (GenMode = "leaf" /\ nops = MaxOps) => PrintT("@@J " \o ToJson([kind |-> "B", h |-> hist]))
